@@ -33,7 +33,7 @@ func init() {
 			return 208
 		},
 		Batches: func(t string) int { return 16 },
-		Rule:    "each case = 2 wallets (PRNG keys) and 2 session secrets taken from two real ECDH set-ups (secureKey.setup/hkdf): (a) the full matrix signer x signed-secret x claimed-public-key(compressed/uncompressed) x signature form (65-byte, 64-byte [R|S]) x verified-secret through Authenticator.Signature/VerifySignature; (b) ~100 mutations of one valid tuple (incl. 16 reference-invalid 64-byte [R|S] signatures: random, other key, other session, other content, bit flips, r/s = 0 or N): single-bit flips in signature and public key, wrong lengths, garbage/hybrid/negated keys, 64-byte and high-s signature forms, altered secrets; every result is compared with an independent decision (decred key parsing + Go crypto/ecdsa.Verify over SHA3-256(secret)); (c) 4 real handshakes: a real listening Authenticator against a scripted dialer and a real dialing Authenticator against a scripted listener, each once honest and once with one attack (signature replayed from the previous real session, other key, bit flip, foreign public key, signature over a traffic key, error field) over suite none or ecdhe. Non-trivial = distinct rejected tuple (reference says invalid) or distinct handshake attack.",
+		Rule:    "each case = 2 wallets (PRNG keys) and 2 session secrets taken from two real ECDH set-ups (secureKey.setup/hkdf): (a) the full matrix signer x signed-secret x claimed-public-key(compressed/uncompressed) x signature form (65-byte, 64-byte [R|S]) x verified-secret through Authenticator.Signature/VerifySignature; (b) ~100 mutations of one valid tuple (incl. 16 reference-invalid 64-byte [R|S] signatures: random, other key, other session, other content, bit flips, r/s = 0 or N): single-bit flips in signature and public key, wrong lengths, garbage/hybrid/negated keys, 64-byte and high-s signature forms, altered secrets; every result is compared with an independent decision (decred key parsing + Go crypto/ecdsa.Verify over SHA3-256(secret)); (c) 4 real handshakes: a real listening Authenticator against a scripted dialer and a real dialing Authenticator against a scripted listener, each once honest and once with one attack (signature replayed from the previous real session, other key, bit flip, foreign public key, signature over a traffic key, error field) over suite none or ecdhe. (d) afterwards 101-220 further distinct peer ids are interned (NewPeerID and packet headers read by PacketReader, more than the 100-entry id cache) and every identity assigned before - the authenticated sessions' Peer.ID() and ids returned by VerifySignature - must still be the address of the proven key. Non-trivial = distinct rejected tuple (reference says invalid) or distinct handshake attack.",
 		MinNonTrivial: func(t string) int {
 			if t == ev.Thorough {
 				return 500000
@@ -42,7 +42,7 @@ func init() {
 		},
 		Required: []string{"matrix_accept", "matrix_reject_other_session", "matrix_reject_other_key", "mut_sig_bitflip_reject", "mut_pub_bitflip_reject",
 			"mut_length_reject", "mut_sig64_invalid_reject", "matrix_reject_64_byte_form", "hs_attack_64_byte_signature_rejected", "hs_in_honest_accepted", "hs_out_honest_accepted", "hs_in_attack_rejected", "hs_out_attack_rejected",
-			"hs_attack_replay_other_session", "hs_suite_none", "hs_suite_ecdhe", "responder_signs_this_session"},
+			"hs_attack_replay_other_session", "identity_stable_after_cache_churn", "identity_stable_session-in", "identity_stable_session-out", "identity_stable_verify-result", "hs_suite_none", "hs_suite_ecdhe", "responder_signs_this_session"},
 		Assumptions: []string{
 			"ECDSA/secp256k1 unforgeability and SHA3-256: 'forged' = made by another key, over another secret, or bit-mutated",
 			"reference decision = github.com/decred secp256k1.ParsePubKey + Go crypto/ecdsa.Verify on the same curve parameters; signature forms that the reference finds mathematically valid for (key, this secret) (changed recovery byte, 64-byte form, high-s, hybrid key encoding) prove possession and may be accepted or rejected",
@@ -177,6 +177,7 @@ func run(c *ev.Ctx) {
 			return map[string]interface{}{"priv1": hx(ps[0].priv), "priv2": hx(ps[1].priv), "pub1": hx(ps[0].pubC), "pub2": hx(ps[1].pubC), "secret1": hx(s1), "secret2": hx(s2)}
 		}
 
+		var held []heldID
 		// ---- (a) matrix
 		var sigs [2][2][]byte
 		for k := 0; k < 2; k++ {
@@ -239,6 +240,10 @@ func run(c *ev.Ctx) {
 									c.Violation("matrix.wrong-identity", m)
 								} else {
 									c.Count("matrix_accept", 1)
+									if len(held) < 3 {
+										heldObj := id
+										held = append(held, heldID{"verify-result", func() module.PeerID { return heldObj }, ps[claimed].addr, pub})
+									}
 								}
 								continue
 							}
@@ -430,8 +435,62 @@ func run(c *ev.Ctx) {
 		}
 
 		// ---- (c) handshakes
-		handshakes(c, r, ps)
+		held = append(held, handshakes(c, r, ps)...)
+		if !c.Stopped() {
+			churnAndCheck(c, r, held)
+		}
 	})
+}
+
+// ---------- identities must stay what was proven ----------
+
+// heldID is an identity object handed out by the code under test for a proven key.
+type heldID struct {
+	what string
+	id   func() module.PeerID
+	want []byte
+	pub  []byte
+}
+
+// churnAndCheck interns more distinct peer ids than the process-wide PeerID cache holds - the way real
+// traffic does (every received packet header interns its unauthenticated source id; NewPeerID) - and then
+// re-reads every identity that was assigned earlier: it must still be the address of the proven key.
+func churnAndCheck(c *ev.Ctx, r *rand.Rand, held []heldID) {
+	if len(held) == 0 {
+		return
+	}
+	n := 101 + r.Intn(120)
+	var stream []byte
+	var last []byte
+	for i := 0; i < n; i++ {
+		src := make([]byte, 20)
+		r.Read(src)
+		last = src
+		if i%2 == 0 {
+			network.NewPeerID(src)
+		} else {
+			wp := netgrp.WirePacket{Protocol: 0x0300, SubProtocol: 1, Src: src, Dest: 0, TTL: 0, Payload: []byte{byte(i)}}
+			stream = append(stream, wp.Bytes()...)
+		}
+	}
+	pr := network.NewPacketReader(bytes.NewReader(stream))
+	for {
+		if _, err := pr.ReadPacket(); err != nil {
+			break
+		}
+	}
+	c.Count("identity_cache_churn_ids", n)
+	for _, h := range held {
+		c.Eval(1)
+		id := h.id()
+		if id == nil || !bytes.Equal(id.Bytes(), h.want) {
+			c.Violation("identity.changed-after-authentication."+h.what, map[string]interface{}{"what": h.what, "proven_public_key": hx(h.pub),
+				"identity_when_assigned": hx(h.want), "identity_now": fmt.Sprint(id), "distinct_ids_interned_since": n, "last_interned": hx(last)})
+			return
+		}
+		c.Count("identity_stable_after_cache_churn", 1)
+		c.Count("identity_stable_"+h.what, 1)
+	}
 }
 
 // ---------- handshake level ----------
@@ -531,6 +590,7 @@ var attacks = []attack{
 }
 
 type hsOutcome struct {
+	peer       *network.Peer // the real side's peer object (session)
 	acceptedCh chan struct{}
 	accepted   bool   // the real authenticator handed the peer on
 	id         []byte // identity it assigned
@@ -696,12 +756,13 @@ func runHandshake(c *ev.Ctx, r *rand.Rand, real, me, other *party, realIn bool, 
 	if got := network.VerifPeerSessionExtra(peer); !bytes.Equal(got, o.extra) {
 		o.scriptErr = fmt.Sprintf("session secrets differ: real %x script %x", got, o.extra)
 	}
+	o.peer = peer
 	peer.Close("verif: case done")
 	<-closed
 	return o
 }
 
-func handshakes(c *ev.Ctx, r *rand.Rand, ps []*party) {
+func handshakes(c *ev.Ctx, r *rand.Rand, ps []*party) (held []heldID) {
 	realParty := newParty(r)
 	type lateCheck struct {
 		o          *hsOutcome
@@ -750,6 +811,8 @@ func handshakes(c *ev.Ctx, r *rand.Rand, ps []*party) {
 			continue
 		}
 		c.Count("hs_"+side+"_honest_accepted", 1)
+		sess := h.peer
+		held = append(held, heldID{"session-" + side, func() module.PeerID { return sess.ID() }, ps[0].addr, ps[0].w.PublicKey()})
 		c.Count("hs_suite_"+h.suite, 1)
 		// the real side's own proof is over this session's secret and is its own key
 		if h.realPub != nil {
@@ -802,4 +865,5 @@ func handshakes(c *ev.Ctx, r *rand.Rand, ps []*party) {
 			c.Sample(map[string]interface{}{"kind": "handshake", "real_side": side, "suite": a.suite, "attack": atk.name, "closed": a.closed, "response_error": a.respErr})
 		}
 	}
+	return held
 }
